@@ -270,7 +270,7 @@ func TestVerif_C16_presets(t *testing.T) {
 					delete(got, "accept-encoding")
 				}
 				for k := range got {
-					if strings.HasPrefix(k, "__") {
+					if verifh.C16IsBookKey(k) {
 						ok, why = false, "bookkeeping key on the wire: "+k
 					}
 				}
